@@ -1,13 +1,19 @@
 """C17 — std::chrono round trip (bounded exhaustive enumeration against an exact reference).
 
- (a) as_quantity(d): count, Rep identity, unit_ratio(unit, seconds) == Period      (dump + sweep)
- (b) implicit / as_chrono_duration round trip: count, Period identity              (dump + sweep)
+ (a) as_quantity(d): count (bit-identical), Rep identity, unit_ratio(unit, seconds) == Period, for the four
+     value categories rvalue / lvalue / const lvalue / const rvalue                   (dump + sweep)
+ (b) implicit / as_chrono_duration round trip: count, Period identity                (dump + sweep)
  (c) duration-vs-quantity == != < <= > >= + - on all ordered pairs of duration types, both
-     argument orders, against chrono itself and a 128-bit exact oracle               (sweep)
- (d) is_convertible<duration, Q> == is_convertible<Quantity<s*Period, Rep>, Q>     (dump)
+     argument orders: integer counts (8/10-bit square, boundary square, threshold-edge alphabet) against
+     chrono and a 128-bit exact oracle; enumerated floating counts against chrono alone   (sweep)
+ (d) is_convertible<duration, Q> == is_convertible<Quantity<s*Period, Rep>, Q>     (dump); for accepted
+     (duration, target): `Target t = d` compiles and equals `Target t2 = as_quantity(d)`  (probe + sweep)
+ all six compiler x standard configurations, compile-only: acceptance of the mixed operators on a reduced pair
+     set and constexpr use (static_assert) of the round trip and the mixed operators      (probes)
 """
 import json
 import os
+import resource
 from fractions import Fraction as Fr
 
 from .. import c17_gen as G
@@ -15,7 +21,8 @@ from .. import core, model, psx
 
 LEVEL = "exploration"
 TIME_DIM = model.dim_key(model.LIB_BY_STEM["seconds"].dim)
-FORMS = (("rv", "rvalue"), ("lv", "lvalue"), ("cl", "const lvalue"))
+FORMS = tuple((tag, cat) for tag, cat, _ in G.CATS)     # rvalue, lvalue, const lvalue, const rvalue
+INTEGRAL = set(core.BITS)
 
 
 REPLAY_CAP = 50   # replay artefacts are written for the first violations only (finish() prints <= 50)
@@ -44,7 +51,7 @@ def _control(cfg, wd, flags=()):
 
 
 def _by_name():
-    return {d.name: d for d in G.durations() + G.named_durations()}
+    return {d.name: d for d in G.durations() + G.extra_durations() + G.named_durations()}
 
 
 # ------------------------------------------------------------------------------ (a)(b)(d) dumps
@@ -56,7 +63,7 @@ def static_records(allD):
             recs.append((rid, G.static_stmts(d, part)))
             meta[rid] = (part, d, None)
     for d in allD:
-        for t in G.targets():
+        for t in G.targets_for(d, d.extra):
             rid = len(recs)
             recs.append((rid, G.accept_stmts(d, t[1])))
             meta[rid] = ("accept", d, t)
@@ -100,7 +107,7 @@ def judge_static(d, part, o):
 
 def judge_accept(d, t, o):
     out = []
-    for k, cat in (("dur", "rvalue"), ("dur_lref", "lvalue"), ("dur_clref", "const lvalue")):
+    for k, cat, _ in G.ACC_FORMS:
         if o[k] != o["qty"]:
             out.append(("C17:accept-mismatch:%s->%s" % (d.name, t[0]),
                         "is_convertible<%s %s, %s> is %s but is_convertible<Quantity<Seconds*%d/%d,%s>, %s> is %s"
@@ -113,9 +120,11 @@ def run_static(run, cfgs, allD):
     core.warm_pch(cfgs)
     stats = {"records": 0, "accept_true": 0, "accept_false": 0, "hard_errors": 0, "model_mismatch": []}
     both = {}
+    tidx = {t[0]: k for k, t in enumerate(G.targets())}
+    accepted = {}    # cfg name -> duration name -> indices of targets that accept it in every form
     for cfg in cfgs:
         res, failed = psx.run_dump(cfg, recs, os.path.join(run.wd, "dump_" + cfg.name), "c17", "",
-                                   chunk=max(20, len(recs) // (core.NCPU * 2) + 1))
+                                   chunk=min(200, max(20, len(recs) // (core.NCPU * 2) + 1)))
         if failed:   # believe a compile failure only if it reproduces alone, after a control compile
             _control(cfg, run.wd)
             res2, failed = psx.run_dump(cfg, [recs[r] for r in sorted(failed)],
@@ -143,6 +152,8 @@ def run_static(run, cfgs, allD):
                 v = judge_accept(d, t, o)
                 stats["accept_true" if o["qty"] else "accept_false"] += 1
                 both.setdefault(d.name, set()).add(bool(o["qty"]))
+                if o["qty"] and all(o[k] for k, _, _ in G.ACC_FORMS):
+                    accepted.setdefault(cfg.name, {}).setdefault(d.name, []).append(tidx[t[0]])
                 pred = G.policy_implicit(d.rep, d.period / t[2], t[3])
                 if pred != o["qty"] and len(stats["model_mismatch"]) < 20:
                     stats["model_mismatch"].append({"dur": d.name, "target": t[0], "documented_policy": pred,
@@ -152,13 +163,18 @@ def run_static(run, cfgs, allD):
                                                         "target": t[0] if t else None,
                                                         "config": [cfg.cxx, cfg.std], "observed": o})
     stats["durations_with_both_accept_outcomes"] = sum(1 for s in both.values() if len(s) == 2)
-    return stats
+    for per_cfg in accepted.values():      # (results arrive in completion order: make the lists canonical)
+        for lst in per_cfg.values():
+            lst.sort()
+    return stats, accepted
 
 
 # ------------------------------------------------------------------------------ run-time sweeps
-def _build_run(run, cfg, tag, emit, groups, flags, parts=1, failed=None):
+def _build_run(run, cfg, tag, emit, groups, flags, parts=1, failed=None, budget=None):
     """Build one TU per group, run them all, parse S/V lines.  With `failed` (a list), groups whose TU
-    does not compile are appended to it instead of being an infrastructure error."""
+    does not compile are appended to it instead of being an infrastructure error.  With `budget` (a dict),
+    a job is started only while run.time_left() > 60 and is given that much time at most; jobs not
+    started / not finished are counted in budget["skipped"] instead of being an infrastructure error."""
     wd = os.path.join(run.wd, tag + "_" + cfg.name)
     os.makedirs(wd, exist_ok=True)
     fl = list(flags)
@@ -179,7 +195,21 @@ def _build_run(run, cfg, tag, emit, groups, flags, parts=1, failed=None):
 
     def go(job):
         exe, part = job
-        rc, out, err = core.sh([exe, str(part), str(parts)], timeout=3600)
+        if budget is not None:
+            left = run.time_left()
+            if left < 60:
+                budget["skipped"] = budget.get("skipped", 0) + 1
+                return ""
+            try:
+                rc, out, err = core.sh([exe, str(part), str(parts)], timeout=min(3600, left))
+            except Exception as e:      # subprocess.TimeoutExpired: the deadline passed during this job
+                if "Timeout" not in type(e).__name__:
+                    raise
+                budget["skipped"] = budget.get("skipped", 0) + 1
+                return ""
+            budget["done"] = budget.get("done", 0) + 1
+        else:
+            rc, out, err = core.sh([exe, str(part), str(parts)], timeout=3600)
         if rc != 0:
             raise core.InfraError("sweep binary %s failed rc=%d: %s" % (exe, rc, err[-2000:]))
         return out
@@ -199,14 +229,39 @@ def _build_run(run, cfg, tag, emit, groups, flags, parts=1, failed=None):
     return S, V
 
 
-def run_roundtrip(run, cfg, allD, w, full32):
+RT_WHAT = {"count": "as_quantity(d).in(unit)", "count-rvalue": "as_quantity(D{x}).in(unit)",
+           "back-implicit": "D back = as_quantity(d); back.count()",
+           "back-as_chrono_duration": "as_chrono_duration(as_quantity(d)).count()",
+           "implicit-accept-value": "Quantity q = d; q.in(unit)",
+           "count-const-rvalue": "const D cd{x}; as_quantity(std::move(cd)).in(unit)",
+           "implicit-accept-const-rvalue": "const D cd{x}; Quantity q = std::move(cd); q.in(unit)"}
+
+
+def _target_params(d, t):
+    """Template arguments N, Dn (= Period / target unit) of the (d)-value sweep, or None when they do not fit."""
+    if t[3] not in INTEGRAL:
+        return 0, 0           # a floating target takes every count; the factor is not needed
+    k = d.period / t[2]
+    if k.numerator >= 2 ** 64 or k.denominator >= 2 ** 64:
+        return None
+    return k.numerator, k.denominator
+
+
+def run_roundtrip(run, cfg, allD, w, accepted, wt, stride):
+    """accepted: duration name -> indices into G.targets() of the targets that implicitly accept it
+    (observed under this cfg by the type-level stage); wt = window radius of the (d)-value sweep;
+    stride: duration number i takes its accepted targets number k with (i + k) % stride == 0 (quick
+    tier: 3, so every target meets a third of the durations; thorough: 1 = all)."""
+    T = G.targets()
+    wdp = os.path.join(run.wd, "rtp_" + cfg.name)
     probes = [core.Probe(i, G.roundtrip_probe(d), "accept") for i, d in enumerate(allD)]
-    res, _ = core.run_probes(cfg, probes, os.path.join(run.wd, "rtp_" + cfg.name), "rt")
+    res, _ = core.run_probes(cfg, probes, wdp, "rt")
     again = [p for p in probes if res[p.pid][0] != "accept"]
     if again:
         _control(cfg, run.wd)
-        res.update(core.run_probes(cfg, again, os.path.join(run.wd, "rtp_" + cfg.name), "rtre")[0])
-    insts, ivs = [], {}
+        res.update(core.run_probes(cfg, again, wdp, "rtre")[0])
+    insts, ivs, tg, ivt = [], {}, {}, {}
+    unfit = left = 0
     for i, d in enumerate(allD):
         if res[i][0] != "accept":
             key = "C17:roundtrip-rejected:%s" % d.name
@@ -214,25 +269,89 @@ def run_roundtrip(run, cfg, allD, w, full32):
             _viol(run, key, what, {"kind": "probe", "code": probes[i].code, "config": [cfg.cxx, cfg.std]})
             continue
         insts.append((i, d))
-        ivs[i] = G.roundtrip_intervals(d.rep, w, full32)
-    n = min(core.NCPU, len(insts))
+        ivs[i] = G.roundtrip_intervals(d.rep, w)
+        tg[i] = []
+        for k, tid in enumerate(accepted.get(d.name, [])):
+            nd = _target_params(d, T[tid])
+            if (i + k) % stride:
+                left += 1
+            elif nd is None:
+                unfit += 1
+            else:
+                tg[i].append((tid, T[tid][1], nd[0], nd[1]))
+        ivt[i] = G.roundtrip_intervals(d.rep, wt)
+    # is_convertible said yes for these (d, target): actually doing `Target t = d` must compile
+    tp = [core.Probe(i, G.implicit_target_probe(d, [x[1] for x in tg[i]]), "accept") for i, d in insts if tg[i]]
+    tres, _ = core.run_probes(cfg, tp, wdp, "tg", batch=8)
+    badd = [p.pid for p in tp if tres[p.pid][0] != "accept"]
+    if badd:
+        _control(cfg, run.wd)
+        one = [core.Probe((i, x[0]), G.implicit_target_probe(allD[i], [x[1]]), "accept") for i in badd for x in tg[i]]
+        ores, _ = core.run_probes(cfg, one, wdp, "tg1", batch=8)
+        for pr in one:
+            if ores[pr.pid][0] == "accept":
+                continue
+            i, tid = pr.pid
+            key = "C17:implicit-accept-hard-error:%s->%s" % (allD[i].name, T[tid][0])
+            what = ("%s: std::is_convertible<%s, %s> is true, but `%s t = d;` does not compile: %s"
+                    % (cfg, allD[i].name, T[tid][0], T[tid][0], ores[pr.pid][1]))
+            _viol(run, key, what, {"kind": "probe", "code": pr.code, "config": [cfg.cxx, cfg.std]})
+            tg[i] = [x for x in tg[i] if x[0] != tid]
+    n = min(core.NCPU * 2, len(insts))
     groups = [insts[k::n] for k in range(n)]
-    S, V = _build_run(run, cfg, "rt", lambda src, g: G.emit_roundtrip_tu(src, g, ivs), groups, ["-O1"],
-                      parts=4 if full32 else 1)
+    S, V = _build_run(run, cfg, "rt", lambda src, g: G.emit_roundtrip_tu(src, g, ivs, tg, ivt), groups, ["-O1"])
+    _roundtrip_violations(run, cfg, allD, V)
+    ST = [s for s in S if "tgt" in s]
+    S = [s for s in S if "tgt" not in s]
+    if len(S) != len(insts) or len(ST) != sum(len(tg[i]) for i, _ in insts):
+        raise core.InfraError("round-trip sweep: %d of %d instances, %d of %d (duration, target) instances reported"
+                              % (len(S), len(insts), len(ST), sum(len(tg[i]) for i, _ in insts)))
+    return {"types": len(insts), "evals": sum(s["evals"] for s in S), "nan_counts": sum(s["nans"] for s in S),
+            "raw_violations": sum(s["viol"] for s in S) + sum(s["viol"] for s in ST),
+            "implicit_target_instances": len(ST), "implicit_target_evals": sum(s["evals"] for s in ST),
+            "implicit_target_skipped_outside_target_range": sum(s["skipped"] for s in ST),
+            "implicit_target_factor_does_not_fit_template_argument": unfit,
+            "implicit_target_instances_left_to_thorough_tier": left}
+
+
+def _roundtrip_violations(run, cfg, allD, V):
+    T = G.targets()
     for v in V:
         d = allD[v["inst"]]
+        if v["kind"] == "implicit-target-value":
+            t = T[v["tgt"]]
+            key = "C17:implicit-target-value:%s->%s:x=%s" % (d.name, t[0], v["x"])
+            what = ("%s: %s t = %s{%s} holds %s, but %s t2 = as_quantity(%s{%s}) holds %s (both read with .in(unit of the target))"
+                    % (cfg, t[0], d.name, v["x"], v["got"], t[0], d.name, v["x"], v["want"]))
+            _viol(run, key, what, {"kind": "roundtrip", "dur": d.name, "target": t[0], "item": [v["ik"], v["iv"]],
+                                   "config": [cfg.cxx, cfg.std], "observed": v})
+            continue
         key = "C17:%s:%s:x=%s" % (v["kind"], d.name, v["x"])
-        what = ("%s: %s with count %s: %s gives %s" % (cfg, d.name, v["x"], {
-            "count": "as_quantity(d).in(unit)", "count-rvalue": "as_quantity(D{x}).in(unit)",
-            "back-implicit": "D back = as_quantity(d); back.count()",
-            "back-as_chrono_duration": "as_chrono_duration(as_quantity(d)).count()",
-            "implicit-accept-value": "Quantity q = d; q.in(unit)"}[v["kind"]], v["got"]))
+        what = ("%s: %s with count %s: %s gives %s" % (cfg, d.name, v["x"], RT_WHAT[v["kind"]], v["got"]))
         _viol(run, key, what, {"kind": "roundtrip", "dur": d.name, "item": [v["ik"], v["iv"]],
                                "config": [cfg.cxx, cfg.std], "observed": v})
-    if len(S) != len(insts):
-        raise core.InfraError("round-trip sweep: %d of %d instances reported" % (len(S), len(insts)))
-    return {"types": len(insts), "evals": sum(s["evals"] for s in S), "nan_counts": sum(s["nans"] for s in S),
-            "raw_violations": sum(s["viol"] for s in S)}
+
+
+SLICES32 = 8
+
+
+def run_full32(run, cfg, allD):
+    """Thorough tier, last stage: every one of the 2^32 counts of the 32-bit reps (int32_t values, float bit
+    patterns) of the 44 + 6 main types through the round trip, in SLICES32 slices per type; a slice is
+    started only while the deadline leaves room (the slices that did not run are counted)."""
+    insts = [(i, d) for i, d in enumerate(allD) if d.rep in ("int32_t", "float") and not d.extra]
+    ivs = {}
+    for i, d in insts:
+        kind, lo = (1, 0) if d.rep == "float" else (0, -2 ** 31)
+        step = 2 ** 32 // SLICES32
+        ivs[i] = [(kind, lo + k * step, lo + (k + 1) * step - 1) for k in range(SLICES32)]
+    budget = {}
+    S, V = _build_run(run, cfg, "rt32", lambda src, g: G.emit_roundtrip_slices_tu(src, g, ivs), [[x] for x in insts], ["-O1"],
+                      parts=SLICES32, budget=budget)
+    _roundtrip_violations(run, cfg, allD, V)
+    return {"types": len(insts), "slices": len(insts) * SLICES32, "slices_done": len(S),
+            "slices_not_run_deadline": budget.get("skipped", 0), "evals": sum(s["evals"] for s in S),
+            "nan_counts": sum(s["nans"] for s in S), "raw_violations": sum(s["viol"] for s in S)}
 
 
 FORMS4 = ("dq", "qd", "qq", "acd")
@@ -324,50 +443,172 @@ def run_mixed(run, cfg, durs, pairs, lo8, hi8):
     for v in V:
         i, j = idx[v["inst"]]
         a, b = durs[i], durs[j]
-        key = "C17:mixed:%s:%s:%s:%s:a=%s:b=%s" % (v["op"], v["form"], a.name, b.name, v["a"], v["b"])
+        key = "C17:%s:%s:%s:%s:%s:a=%s:b=%s" % (v["kind"], v["op"], v["form"], a.name, b.name, v["a"], v["b"])
         l = "%s{%s}" % (a.name, v["a"]) if v["form"] == "dq" else "as_quantity(%s{%s})" % (a.name, v["a"])
         r = "%s{%s}" % (b.name, v["b"]) if v["form"] == "qd" else "as_quantity(%s{%s})" % (b.name, v["b"])
-        what = "%s: %s %s %s gives %s; inside chrono %s (exact %s)" % (cfg, l, v["op"], r, v["au"], v["chrono"], v["exact"])
-        _viol(run, key, what, {"kind": "mixed", "a": a.name, "b": b.name, "x": v["a"], "y": v["b"],
-                               "op": v["op"], "form": v["form"], "config": [cfg.cxx, cfg.std], "observed": v})
+        what = "%s: %s %s %s gives %s; inside chrono %s%s" % (
+            cfg, l, v["op"], r, v["au"], v["chrono"],
+            {"mixed": " (exact %s)" % v["exact"],
+             "mixed-band": " (chrono's conversion to the common type rounds here, it does not overflow; exact %s)" % v["exact"],
+             "mixed-fp": " (chrono does not overflow)"}[v["kind"]])
+        _viol(run, key, what, {"kind": "mixed", "a": a.name, "b": b.name, "x": v["ra"], "y": v["rb"],
+                               "fp": v["kind"] == "mixed-fp", "op": v["op"], "form": v["form"],
+                               "config": [cfg.cxx, cfg.std], "observed": v})
     full = (1 << 6) - 1
+    tot = lambda k: sum(s[k] for s in S)
     return {"pairs": len(pairs), "pairs_accepted": len(acc), "pairs_rejected_by_policy": len(rej),
             "policy_prediction_mismatch": mism, "sweep_tus_that_needed_per_pair_probing": len(bad),
-            "quantity_op_quantity_disagreements_with_chrono_info": sum(s["qq_disagree"] for s in S),
-            "value_pairs": sum(s["evals"] for s in S), "op_evaluations": sum(s["ops"] for s in S),
-            "skipped_chrono_conversion_overflow": sum(s["skip_conv"] for s in S),
-            "skipped_chrono_sum_overflow": sum(s["skip_arith"] for s in S),
-            "fp_inexact_band_value_pairs": sum(s["band"] for s in S),
-            "fp_inexact_band_disagreements": sum(s["band_disagree"] for s in S),
+            "quantity_op_quantity_disagreements_with_chrono_info": tot("qq_disagree"),
+            "value_pairs": tot("evals"), "op_evaluations": tot("ops") + tot("fp_ops"),
+            "threshold_edge_value_pairs": tot("edge"), "threshold_edge_elements_not_exact_in_operand_rep": tot("edge_dropped"),
+            "skipped_chrono_conversion_overflow": tot("skip_conv"),
+            "skipped_chrono_sum_overflow": tot("skip_arith"),
+            "fp_inexact_band_value_pairs": tot("band"),
+            "fp_inexact_band_disagreements": tot("band_disagree"),
+            "fp_alphabet_value_pairs": tot("fp_evals"), "fp_alphabet_op_evaluations": tot("fp_ops"),
+            "fp_alphabet_dont_care_chrono_overflows_to_inf": tot("fp_ovf"),
+            "fp_alphabet_dont_care_chrono_overflows_to_inf_disagreements_info": tot("fp_ovf_disagree"),
+            "fp_alphabet_dont_care_nan_in_le_ge": tot("fp_nan_dc"),
+            "fp_alphabet_dont_care_nan_in_le_ge_disagreements_info": tot("fp_nan_dc_disagree"),
+            "fp_alphabet_nan_operations_demanded": tot("fp_nan_demanded"),
+            "fp_alphabet_sums_equal_but_sign_of_zero_differs_info": tot("fp_zero_sign_diff"),
             "pairs_with_both_outcomes_of_all_comparisons": sum(1 for s in S if s["seen_true"] == full and s["seen_false"] == full),
-            "pairs_sum_type_identical_to_chrono": sum(s["sum_type_same"] for s in S),
-            "raw_violations": sum(s["viol"] for s in S),
+            "pairs_sum_type_identical_to_chrono": tot("sum_type_same"),
+            "raw_violations": tot("viol"),
             "rejected_examples": ["%s vs %s" % (durs[i].name, durs[j].name) for i, j in rej[:4]]}
+
+
+# ------------------------------------------------------------------------------ all six configurations
+# reduced pair set for the compile-only stage: (index into G.PERIODS) x (index into G.PERIODS)
+CFG_PERIOD_PAIRS = [(2, 3), (8, 10), (0, 6), (4, 4), (3, 2), (10, 7)]
+
+
+def config_pairs(durs, quick):
+    """Quick: same-rep pairs on the first four period pairs plus one cross-rep row (int32_t against the other
+    three reps, both orders) on the first two; thorough: every rep pair on all six period pairs."""
+    np_, nr = len(G.PERIODS), len(G.REPS)
+    out = []
+    for r1 in range(nr):
+        for r2 in range(nr):
+            for n, (p1, p2) in enumerate(CFG_PERIOD_PAIRS):
+                if quick and (n >= 4 or (r1 != r2 and not ((r1 == 0 or r2 == 0) and n < 2))):
+                    continue
+                out.append((r1 * np_ + p1, r2 * np_ + p2))
+    return out
+
+
+def constexpr_types(allD, quick):
+    """Quick: every rep on the periods 1/1000, 86400/1, 1001/30000, the named typedefs, and the int64_t
+    instances of the extra periods; thorough: every duration type."""
+    if not quick:
+        return list(allD)
+    return [d for d in allD if d.named or (d.extra and d.rep == "int64_t") or
+            (not d.extra and (d.num, d.den) in ((1, 1000), (86400, 1), (1001, 30000)))]
+
+
+def run_configs(run, cfgs, durs, allD, quick):
+    """Compile-only, under every compiler x standard: (i) the eight mixed operators in the forms
+    duration op quantity / quantity op duration are accepted exactly when quantity op quantity is, and the
+    verdict does not depend on the configuration (C++20 rewritten candidates included); (ii) the round trip and
+    the mixed operators are usable in constant expressions (static_assert on their values)."""
+    pairs = config_pairs(durs, quick)
+    cxD = constexpr_types(allD, quick)
+    verdicts, stats = {}, {"configs": [str(c) for c in cfgs], "pairs": len(pairs), "probes": 0, "constexpr_probes": 0,
+                           "pairs_accepted": 0, "pairs_rejected_by_policy": 0}
+    core.warm_pch(cfgs)
+    for cfg in cfgs:
+        wd = os.path.join(run.wd, "cfg_" + cfg.name)
+        pred = {p: G.predicted_mixed_accept(durs[p[0]], durs[p[1]]) for p in pairs}
+        pr = [core.Probe((i, j, f), G.mixed_probe(durs[i], durs[j], f), "accept" if pred[(i, j)] else "reject")
+              for (i, j) in pairs for f in FORMS4]
+        cx = [core.Probe(("cx", k), G.constexpr_probe(d), "accept") for k, d in enumerate(cxD)]
+        res, _ = core.run_probes(cfg, pr + cx, wd, "cf", batch=24)
+        odd = [p for p in pr if len(set(res[(p.pid[0], p.pid[1], f)][0] for f in FORMS4)) > 1] + \
+              [p for p in cx if res[p.pid][0] != "accept"]
+        if odd:
+            _control(cfg, run.wd)
+            for p in odd:
+                p.expect = "accept"
+            res.update(core.run_probes(cfg, odd, wd, "cfre", batch=24)[0])
+        stats["probes"] += len(pr)
+        stats["constexpr_probes"] += len(cx)
+        for (i, j) in pairs:
+            a, b = durs[i], durs[j]
+            v = {f: res[(i, j, f)][0] for f in FORMS4}
+            dg = next((res[(i, j, f)][1] for f in FORMS4 if res[(i, j, f)][1]), "")
+            verdicts[(cfg.name, i, j)] = v
+            stats["pairs_accepted" if all(x == "accept" for x in v.values()) else "pairs_rejected_by_policy"] += 1
+            for f in ("dq", "qd"):
+                if v[f] != v["qq"]:
+                    key = "C17:mixed-accept:%s:%s:%s" % (f, a.name, b.name)
+                    what = ("%s: the eight operators on (%s, %s) are %sed in the form %s but %sed when both operands are "
+                            "the corresponding quantities (%s)" % (cfg, a.name, b.name, v[f],
+                                                                   "duration op quantity" if f == "dq" else "quantity op duration",
+                                                                   v["qq"], dg))
+                    _viol(run, key, what, {"kind": "mixed-accept", "a": a.name, "b": b.name, "form": f,
+                                           "config": [cfg.cxx, cfg.std]})
+            if v["dq"] == "accept" and v["qd"] == "accept" and v["acd"] != "accept":
+                key = "C17:mixed-sum-not-a-duration:%s:%s" % (a.name, b.name)
+                what = ("%s: the mixed sums/differences of (%s, %s) compile but as_chrono_duration() of them does not: %s"
+                        % (cfg, a.name, b.name, dg))
+                _viol(run, key, what, {"kind": "probe", "code": G.mixed_probe(a, b, "acd"), "config": [cfg.cxx, cfg.std]})
+            v0 = verdicts[(cfgs[0].name, i, j)]
+            for f in ("dq", "qd"):
+                if v[f] != v0[f] and v[f] == v["qq"]:      # (a form-dependent verdict is reported above)
+                    key = "C17:mixed-accept-config:%s:%s:%s:%s" % (f, a.name, b.name, cfg.name)
+                    what = ("the eight mixed operators on (%s, %s), form %s, are %sed under %s but %sed under %s (%s)"
+                            % (a.name, b.name, f, v0[f], cfgs[0], v[f], cfg, dg))
+                    _viol(run, key, what, {"kind": "mixed-accept-config", "a": a.name, "b": b.name, "form": f,
+                                           "config": [cfg.cxx, cfg.std], "config0": [cfgs[0].cxx, cfgs[0].std]})
+        for k, d in enumerate(cxD):
+            if res[("cx", k)][0] != "accept":
+                key = "C17:constexpr-use:%s" % d.name
+                what = ("%s: as_quantity / round trip / mixed operators on %s{1} are not usable in a constant expression, "
+                        "or a static_assert on their value fails: %s" % (cfg, d.name, res[("cx", k)][1]))
+                _viol(run, key, what, {"kind": "probe", "code": G.constexpr_probe(d), "config": [cfg.cxx, cfg.std]})
+    return stats
 
 
 # ------------------------------------------------------------------------------ driver
 def check(run):
     quick = run.tier == "quick"
-    durs, named = G.durations(), G.named_durations()
-    allD = durs + named
+    durs, extra, named = G.durations(), G.extra_durations(), G.named_durations()
+    allD = durs + extra + named
     cfgs = core.CORNERS if quick else core.CFG6
     sweep_cfgs = [core.GXX14] if quick else [core.GXX14, core.CLANG20]
-    notes, wall = [], {}
-    t0 = run.elapsed()
-    st = run_static(run, cfgs, allD)
-    wall["type_level"] = round(run.elapsed() - t0, 1)
+    notes, wall, cpu = [], {}, {}
+
+    def cpu_now():   # compiler + sweep processes (children); recorded for sizing only, never used for a verdict
+        r = resource.getrusage(resource.RUSAGE_CHILDREN)
+        return r.ru_utime + r.ru_stime
+
+    t0, c0 = run.elapsed(), cpu_now()
+    st, accepted = run_static(run, cfgs, allD)
+    wall["type_level"], cpu["type_level"] = round(run.elapsed() - t0, 1), round(cpu_now() - c0, 1)
+    t0, c0 = run.elapsed(), cpu_now()
+    cf = run_configs(run, core.CFG6, durs, allD, quick)
+    wall["six_configs"], cpu["six_configs"] = round(run.elapsed() - t0, 1), round(cpu_now() - c0, 1)
     pairs = [(i, j) for i in range(len(durs)) for j in range(len(durs))]
     rt, mx = {}, {}
     for n, cfg in enumerate(sweep_cfgs):
         if n and run.time_left() < 420:
             notes.append("second sweep build (%s) skipped: deadline" % cfg)
             break
-        # thorough, first build: the 10-bit square (it contains the 8-bit square of the quantifier)
-        sq = (-128, 127) if quick or n else (-512, 511)
+        # thorough, first build: the 10-bit square (it contains the 8-bit square of the quantifier), while
+        # the deadline leaves room for it
+        big = not quick and n == 0
+
+        def mixed_stage():
+            sq = (-512, 511) if big and run.time_left() > 1200 else (-128, 127)
+            if big and sq[1] == 127:
+                notes.append("10-bit square reduced to the 8-bit square: deadline")
+            return dict(run_mixed(run, cfg, durs, pairs, sq[0], sq[1]), value_square=list(sq))
+
         for stage, fn in (("roundtrip", lambda: run_roundtrip(run, cfg, allD, 2 ** 12 if quick else 2 ** 16,
-                                                              full32=(not quick and n == 0))),
-                          ("mixed", lambda: dict(run_mixed(run, cfg, durs, pairs, sq[0], sq[1]), value_square=list(sq)))):
-            t0 = run.elapsed()
+                                                              accepted.get(cfg.name, {}),
+                                                              2 ** 8 if quick else 2 ** 14, 3 if quick else 1)),
+                          ("mixed", mixed_stage)):
+            t0, c0 = run.elapsed(), cpu_now()
             try:
                 (rt if stage == "roundtrip" else mx)[cfg.name] = fn()
             except core.InfraError as e:
@@ -376,38 +617,79 @@ def check(run):
                     raise
                 notes.append("%s stage under %s aborted after violations were found: %s" % (stage, cfg, str(e)[:300]))
             wall["%s_%s" % (stage, cfg.name)] = round(run.elapsed() - t0, 1)
+            cpu["%s_%s" % (stage, cfg.name)] = round(cpu_now() - c0, 1)
+    f32 = None
+    if not quick:
+        if run.time_left() < 180:
+            notes.append("sweep over all 2^32 counts of the 32-bit reps not run (windows only): deadline")
+        else:
+            t0, c0 = run.elapsed(), cpu_now()
+            try:
+                f32 = run_full32(run, core.GXX14, allD)
+                if f32["slices_done"] != f32["slices"]:
+                    notes.append("sweep over all 2^32 counts of the 32-bit reps: %d of %d slices run before the deadline"
+                                 % (f32["slices_done"], f32["slices"]))
+            except core.InfraError as e:
+                if not run.violations:
+                    raise
+                notes.append("2^32 stage aborted after violations were found: %s" % str(e)[:300])
+            wall["full32"], cpu["full32"] = round(run.elapsed() - t0, 1), round(cpu_now() - c0, 1)
     g = sweep_cfgs[0].name
     mx.setdefault(g, {"pairs_with_both_outcomes_of_all_comparisons": 0, "op_evaluations": 0})
-    evals = st["records"] + sum(r["evals"] for r in rt.values()) + sum(m["op_evaluations"] for m in mx.values())
+    evals = (st["records"] + cf["probes"] + cf["constexpr_probes"] +
+             sum(r["evals"] + r["implicit_target_evals"] for r in rt.values()) + sum(m["op_evaluations"] for m in mx.values()) +
+             (f32["evals"] if f32 else 0))
+    fpal = {r: G.fp_alphabet(r)[1] for r in G.REPS}
     run.cov.update({
         "evaluations": evals,
         "distinct_nontrivial": mx[g]["pairs_with_both_outcomes_of_all_comparisons"] + st["durations_with_both_accept_outcomes"],
-        "rule": ("durations = {int32_t,int64_t,float,double} x 11 periods (44 types) + the six named typedefs. "
-                 "(a)(b): per type and per value category, type-level read-out (rep identity, unit_ratio to seconds as a "
-                 "prime factorisation compared with Fraction(Period), as_chrono_duration period identity) in every config, "
-                 "and a run-time sweep over all 16-bit counts plus windows at 0, +-1, rep min/max (floating reps: windows of "
-                 "consecutive bit patterns incl. denormals, inf, NaN). (c): every ordered pair of the 44 types x 8 operators "
-                 "x both argument orders x the 8-bit square plus a 9x9 boundary square, compared with chrono and an exact "
-                 "128-bit oracle; pairs rejected by Au's conversion policy are recorded, not swept. (d): "
-                 "is_convertible<duration,Q> vs is_convertible<Quantity<s*Period,Rep>,Q> over 50 x 32 targets. "
+        "rule": ("durations = {int32_t,int64_t,float,double} x 11 periods (44 types) + the six named typedefs + 32 types that take "
+                 "part in (a)(b)(d) only: periods 1/10^12, 1/10^18, 31556952000/1, 10^10/3 (numerator or denominator beyond 2^31 / "
+                 "2^32), 1/1000003 and 4294967311/1 (large primes) and the non-reduced spellings ratio<2,4>, ratio<120,2>. "
+                 "(a)(b): per type and per value category (rvalue, lvalue, const lvalue, const rvalue), type-level read-out (rep "
+                 "identity, unit_ratio to seconds as a prime factorisation compared with Fraction(Period), as_chrono_duration period "
+                 "identity) in every config, and a run-time sweep over all 16-bit counts plus windows at 0, +-1, rep min/max "
+                 "(floating reps: windows of consecutive bit patterns incl. -0.0, denormals, inf, NaN; thorough tier, last stage, as far "
+                 "as the deadline allows: all 2^32 counts / bit patterns of the int32_t and float types); 'unchanged count' is "
+                 "compared on the object representation (memcmp), NaN counts as NaN. (c): every ordered pair of the 44 types x 8 "
+                 "operators x both argument orders x {the 8-bit square (thorough: 10-bit); a 9x9 boundary square; the enumerated "
+                 "threshold-edge alphabet: with [lo,hi] the exact range of the common rep and K1,K2 the factors to the common "
+                 "period, A = {hi/K1, -(hi/K1), lo/K1}+{-1,0,1} u {0,+-1,+-(hi/K1)/2}, B likewise, all of A x B and for each "
+                 "element the partners that put the sum resp. the difference within one step of hi and lo} compared with chrono "
+                 "and an exact 128-bit oracle; and, when the common rep is floating, all pairs of an enumerated alphabet of "
+                 "floating bit patterns / boundary integers (coverage key fp_alphabet) compared with chrono alone. Pairs rejected "
+                 "by Au's conversion policy are recorded, not swept. (d): is_convertible<duration (4 value categories),Q> vs "
+                 "is_convertible<Quantity<s*Period,Rep>,Q> over 50 x 48 targets (8 units x 4 reps + 4 units x {uint64_t, int16_t, "
+                 "uint8_t, long double}) and 32 x 11 targets for the extra periods; for every accepted (duration, target) `Target t = d` must compile and hold the same "
+                 "value as `Target t2 = as_quantity(d)` (and the exact product for integral targets) over the 16-bit counts + "
+                 "windows (quick tier: a third of the (duration, target) instances, the rest is counted as left to thorough). Under all six compiler x standard configurations, compile-only: acceptance of the 4 forms of the mixed "
+                 "operators on a reduced pair set, and constexpr use (static_assert) of round trip + mixed operators per type. "
                  "Non-trivial = ordered pairs on which every comparison operator was seen both true and false, plus "
                  "duration types for which both accepted and refused targets were seen."),
         "exhaustive": not notes,
         "exhaustive_note": ("complete over the stated finite alphabets (not over all 2^64 counts)" if not notes else "; ".join(notes)),
         "configs_type_level": [str(c) for c in cfgs], "configs_value_level": [str(c) for c in sweep_cfgs[:len(rt)]],
-        "type_level": st, "roundtrip": rt, "mixed": mx, "stage_wall_s": wall,
+        "type_level": st, "six_configs": cf, "roundtrip": rt, "roundtrip_all_2^32_counts_of_32bit_reps": f32, "mixed": mx, "stage_wall_s": wall, "stage_cpu_s": cpu, "fp_alphabet": fpal,
         "samples": [{"duration": durs[8].name, "unit_ratio_to_seconds": "1001/30000", "targets_accepting": "see type_level"},
                     {"pair": [durs[6].name, durs[11].name], "factors_to_common_period": list(G.pair_factors(durs[6], durs[11])[1:])},
-                    {"pair": [durs[10].name, durs[42].name], "factors_to_common_period": list(G.pair_factors(durs[10], durs[42])[1:])}],
+                    {"pair": [durs[10].name, durs[42].name], "factors_to_common_period": list(G.pair_factors(durs[10], durs[42])[1:])},
+                    {"duration": extra[1].name, "unit_ratio_to_seconds": "1/10^18"}],
     })
     run.assumptions += [
         "libstdc++ <chrono> of g++ 12 (also used by clang++ 14) is the reference for 'inside chrono'; it is cross-checked "
         "against exact __int128 arithmetic wherever it does not overflow / round, and any disagreement is an infrastructure error",
         "'chrono does not overflow' for an integral common rep = both counts scaled to the common period and the sum/difference "
-        "fit that rep (those cases are not executed at all when they do not); for a floating common rep the analogous don't-care "
-        "band is 'the exact scaled value or sum is not representable', where Au and chrono are still compared but only counted",
-        "NaN counts compare equal to NaN counts (bitwise payload is not demanded)",
+        "fit that rep (those cases are not executed at all when they do not); for a floating common rep chrono rounds instead of "
+        "overflowing, so the implementation must agree with chrono there too (kinds mixed-band / mixed-fp); the only floating "
+        "don't-care is a finite count that chrono's own conversion or sum turns into an infinity (counted)",
+        "NaN counts: libstdc++ derives duration <= and >= from < by negation (d <= NaN is true inside chrono although the IEEE "
+        "comparison is false), so a NaN on either side of a mixed <= or >= is a counted don't-care "
+        "(fp_alphabet_dont_care_nan_in_le_ge); ==, !=, <, > (chrono's answer is the IEEE answer) and +, - (NaN result) are demanded",
+        "mixed sums/differences are 'the same answer' when they compare equal as durations (or are both NaN); a differing sign of "
+        "zero is counted, not demanded. Round-tripped counts must be bit-identical (NaN payload is not demanded)",
         "named typedefs std::chrono::nanoseconds..hours have a 64-bit signed rep (observed in the dump, else infrastructure error)",
+        "the value of an implicit acceptance is executed only where it has no undefined behaviour: integral target from an integral "
+        "rep with an integer factor whose exact product fits the target rep, or any count into a floating target",
     ]
 
 
@@ -434,23 +716,40 @@ def replay(path):
             hit += [w for _, w in judge_static(d, r["record"], res[0])]
         else:
             hit += [w for _, w in judge_accept(d, t, res[0])]
-    elif kind in ("probe", "mixed-accept"):
+    elif kind in ("probe", "mixed-accept", "mixed-accept-config"):
         if kind == "probe":
-            ps = [core.Probe(0, r["code"], "accept")]
-        else:
+            res, _ = core.run_probes(cfg, [core.Probe(0, r["code"], "accept")], run.wd, "rp")
+            vs = [res[0][0]]
+            bad = vs[0] != "accept"
+        elif kind == "mixed-accept":
             ps = [core.Probe(f, G.mixed_probe(D[r["a"]], D[r["b"]], f), "accept") for f in (r["form"], "qq")]
-        res, _ = core.run_probes(cfg, ps, run.wd, "rp")
-        vs = [res[p.pid][0] for p in ps]
-        if (kind == "probe" and vs[0] != "accept") or (kind != "probe" and vs[0] != vs[1]):
+            res, _ = core.run_probes(cfg, ps, run.wd, "rp")
+            vs = [res[p.pid][0] for p in ps]
+            bad = vs[0] != vs[1]
+        else:
+            vs = []
+            for c in (core.Cfg(*r["config0"]), cfg):
+                res, _ = core.run_probes(c, [core.Probe(0, G.mixed_probe(D[r["a"]], D[r["b"]], r["form"]), "accept")], run.wd, "rp")
+                vs.append(res[0][0])
+            bad = vs[0] != vs[1]
+        if bad:
             hit.append("verdicts %s" % vs)
     elif kind == "roundtrip":
         d = D[r["dur"]]
         k, v = int(r["item"][0]), int(r["item"][1])
-        S, V = _build_run(run, cfg, "rp", lambda src, g: G.emit_roundtrip_tu(src, g, {0: [(k, v, v)]}), [[(0, d)]], ["-O1"])
+        tg, only = None, None
+        if r.get("target"):
+            tid, t = [(n, t) for n, t in enumerate(G.targets()) if t[0] == r["target"]][0]
+            nd = _target_params(d, t)
+            tg, only = {0: [(tid, t[1], nd[0], nd[1])]}, tid
+        S, V = _build_run(run, cfg, "rp", lambda src, g: G.emit_roundtrip_tu(src, g, {0: [(k, v, v)]}, tg, {0: [(k, v, v)]}, only),
+                          [[(0, d)]], ["-O1"])
         hit += [json.dumps(x) for x in V]
     elif kind == "mixed":
         a, b = D[r["a"]], D[r["b"]]
-        S, V = _build_run(run, cfg, "rp", lambda src, g: G.emit_mixed_tu(src, g, single=(int(r["x"]), int(r["y"]))),
+        xy = (int(r["x"]), int(r["y"]))
+        S, V = _build_run(run, cfg, "rp", lambda src, g: G.emit_mixed_tu(src, g, single=None if r.get("fp") else xy,
+                                                                         single_fp=xy if r.get("fp") else None),
                           [[(0, a, b)]], ["-O1"])
         hit += [json.dumps(x) for x in V]
     else:
